@@ -600,6 +600,132 @@ func c10RecvLoop(c *Ctx, a *clientAnchors) {
 			}
 		})
 	}
+	// K8 census: a transaction channel is closed nowhere else in the package — only by the owner's cancel (after
+	// close(done)) and by the loop's `<-p.done` case above (the owner is gone). A close anywhere else hands the
+	// zero message to a call that is still waiting: it returns (nil, nil) or its matcher dereferences nil.
+	{
+		allowed := map[*ssa.Function]bool{fn: true, selIn: true}
+		if a.cancel != nil {
+			allowed[a.cancel] = true
+		}
+		if a.closeFn != nil {
+			allowed[a.closeFn] = true // closes the client's own done channel (C11-K6)
+		}
+		// an unexported helper that closes (retire(p, id), dropEntry(…)) is accepted when every one of its call sites lies
+		// in an accepted function; inside the loop its call is then judged like the close itself (done-case only)
+		closers := map[*ssa.Function]bool{}
+		inPkg := func(g *ssa.Function) bool {
+			pk := g
+			for pk.Parent() != nil {
+				pk = pk.Parent()
+			}
+			return pk.Pkg == a.pkg
+		}
+		for _, g := range c.P.ModuleFuncs() {
+			if !inPkg(g) || allowed[g] {
+				continue
+			}
+			allInstrs(g, func(in ssa.Instruction) {
+				if cl, ok := in.(*ssa.Call); ok && isBuiltinCall(cl.Common(), "close") {
+					closers[g] = true
+				}
+			})
+		}
+		helperOK := map[*ssa.Function]bool{}
+		for g := range closers {
+			if g.Parent() != nil || (g.Object() != nil && g.Object().Exported()) {
+				continue
+			}
+			okAll, nSites := true, 0
+			for _, h := range c.P.ModuleFuncs() {
+				allInstrs(h, func(in ssa.Instruction) {
+					if ci, ok := in.(ssa.CallInstruction); ok && ci.Common().StaticCallee() == g {
+						nSites++
+						if _, isCall := in.(*ssa.Call); !isCall || !allowed[h] {
+							okAll = false
+						}
+					}
+				})
+			}
+			if okAll && nSites > 0 {
+				helperOK[g] = true
+			}
+		}
+		isCloseLike := func(cl *ssa.Call) bool {
+			if isBuiltinCall(cl.Common(), "close") {
+				return true
+			}
+			g := cl.Call.StaticCallee()
+			return g != nil && helperOK[g]
+		}
+		nClose := 0
+		for _, g := range c.P.ModuleFuncs() {
+			if helperOK[g] {
+				continue
+			}
+			if g.Pkg != a.pkg && (g.Parent() == nil || g.Parent().Pkg != a.pkg) {
+				pk := g
+				for pk.Parent() != nil {
+					pk = pk.Parent()
+				}
+				if pk.Pkg != a.pkg {
+					continue
+				}
+			}
+			allInstrs(g, func(in ssa.Instruction) {
+				cl, ok := in.(*ssa.Call)
+				if !ok || !isBuiltinCall(cl.Common(), "close") {
+					return
+				}
+				nClose++
+				if allowed[g] {
+					return
+				}
+				r.Violation("C10-K8", key("a channel is closed outside cancel, Close and the loop's done-case: "+shortName(g)), c.P.ipos(in),
+					"close("+sx.Of(cl.Call.Args[0]).String()+"): a call still waiting on its transaction channel receives the zero message and returns (nil, nil); only the owner's cancel and the loop's `<-p.done` case may close it")
+			})
+		}
+		r.Count("C10-K8-close-sites", nClose)
+		// in the loop, the close sits on the `<-p.done` case of the delivering select
+		for _, kf := range k8fns {
+			allInstrs(kf, func(in ssa.Instruction) {
+				cl, ok := in.(*ssa.Call)
+				if !ok || !isCloseLike(cl) {
+					return
+				}
+				onDone := false
+				allInstrs(kf, func(x ssa.Instruction) {
+					sel, ok := x.(*ssa.Select)
+					if !ok {
+						return
+					}
+					for i, st := range sel.States {
+						if st.Dir != types.RecvOnly || !strings.Contains(sx.Of(st.Chan).String(), "field[done]") {
+							continue
+						}
+						idx := extractOf(sel, 0)
+						if idx == nil {
+							continue
+						}
+						want := int64(i)
+						if mustPassAtoms(kf, cl.Block(), func(as []atomFact) bool {
+							for _, af := range as {
+								if bo, ok := af.v.(*ssa.BinOp); ok && bo.Op == token.EQL && af.val {
+									if k, isK := intConst(bo.Y); isK && k == want && bo.X == ssa.Value(idx) {
+										return true
+									}
+								}
+							}
+							return false
+						}) {
+							onDone = true
+						}
+					}
+				})
+				r.Check(onDone, "C10-K8", key("the loop closes a transaction channel only on the entry's done-case"), c.P.ipos(in), "close(p.ch) is reached only through the `<-p.done` case of the delivering select", "the receive loop closes a transaction channel although its owner has not finished")
+			})
+		}
+	}
 	// loop exits: only on read error
 	readErr := extractOf(read, 2)
 	for b := range loop {
